@@ -727,6 +727,23 @@ class RepoInterp:
                         st.env.pop(n_, None)
                     else:
                         st.env[n_] = v_
+        if fname in ("itertools.groupby", "groupby") and len(args) in (1, 2) and set(kwargs) <= {"key"} and (fname != "groupby" or self.cur_fi.module.imports.get("groupby") == "itertools.groupby"):
+            # runs of ADJACENT elements with equal keys (CPython: a new group starts whenever the key changes - the input is not sorted)
+            seq_g = it.iterate(args[0], st)
+            key_e = call.args[1] if len(call.args) == 2 else next((k_.value for k_ in call.keywords if k_.arg == "key"), None)
+            if seq_g is None:
+                return None
+            groups: List[Tuple[V, List[V]]] = []
+            for x in seq_g:
+                kx = x if key_e is None or (isinstance(key_e, ast.Constant) and key_e.value is None) else self.apply_callable(key_e, [x], st)
+                if kx is None or isinstance(kx, U) or st.pending is not None:
+                    return None
+                kx = st.freeze(kx)
+                if groups and groups[-1][0] == kx:
+                    groups[-1][1].append(x)
+                else:
+                    groups.append((kx, [x]))
+            return K(tuple(K((k_, K(tuple(g_)))) for k_, g_ in groups))
         if fname in ("itertools.islice", "islice") and 2 <= len(args) <= 4 and not kwargs and all(isinstance(a, K) and (a.v is None or isinstance(a.v, int)) for a in args[1:]):
             seq_i = it.iterate(args[0], st)
             if seq_i is None:
@@ -1700,3 +1717,18 @@ def attr_is_param(repo: Repo, ci: Any, attr: str, param: str) -> Tuple[bool, str
         if n is None or not all(k == "param" for _, k, _ in g.origins(val, n.id)):
             return False, f"`{param}` is rebound before being stored: {norm(stmt)}"
     return True, ""
+
+
+
+def block_entry(repo: Repo, name: str = "trace_calls", module: str = "monkeytype.tracing") -> FunctionInfo:
+    """what `trace_calls(...)` calls: the @contextmanager generator function - or, where the tracing block has been turned into a
+    class with __enter__/__exit__, that class's __init__ (the parameters of the call, the name under which reports are filed)"""
+    f = repo.fn(module, name, required=False)
+    if f is not None:
+        return f
+    ci = repo.cls(module, name, required=False)
+    if ci is not None:
+        init = repo.method(ci, "__init__")
+        if init is not None and repo.method(ci, "__enter__") is not None and repo.method(ci, "__exit__") is not None:
+            return init
+    raise AnalysisError(f"anchor {module}.{name} not found: neither a function nor a context-manager class")
